@@ -135,6 +135,8 @@ structure Variant where
 
 def Variant.current : Variant := ⟨false, false, false, false, false, false⟩
 def Variant.repaired : Variant := ⟨true, true, true, true, true, true⟩
+/-- the tree with the proposed small `fix:` diffs: everything repaired except the two-commit `record_call_node` -/
+def Variant.proposed : Variant := ⟨true, false, true, true, true, true⟩
 
 /-! ### queries (pure functions of the tables) -/
 
